@@ -121,6 +121,7 @@ type Engine struct {
 	Returns    []ReturnRec
 	Problems   []Problem
 	volatile   map[*ssa.Alloc]bool
+	sentinel   map[string]bool // package-level error variables with a fixed non-nil value
 	allocOf    map[string]*ssa.Alloc
 	siteType   map[string]types.Type
 	Inlined    map[*ssa.Function]bool
@@ -148,7 +149,63 @@ func New(cfg Config) *Engine {
 	e := &Engine{Cfg: cfg, finfo: map[*ssa.Function]*FuncInfo{}, visited: map[[20]byte]bool{},
 		volatile: map[*ssa.Alloc]bool{}, allocOf: map[string]*ssa.Alloc{}, siteType: map[string]types.Type{}, Inlined: map[*ssa.Function]bool{}, SiteClass: map[string]string{}, IVStep: map[string]int64{}, StatesAt: map[string]int{}}
 	e.computeVolatile()
+	e.computeSentinels()
 	return e
+}
+
+// computeSentinels finds package-level error variables that are assigned exactly once,
+// in the package initialiser, from errors.New / fmt.Errorf: their value is a fixed
+// non-nil error for the whole run.
+func (e *Engine) computeSentinels() {
+	e.sentinel = map[string]bool{}
+	stores := map[*ssa.Global][]*ssa.Store{}
+	where := map[*ssa.Store]*ssa.Function{}
+	var visit func(f *ssa.Function)
+	visit = func(f *ssa.Function) {
+		for _, b := range f.Blocks {
+			for _, ins := range b.Instrs {
+				if st, ok := ins.(*ssa.Store); ok {
+					if g, ok := st.Addr.(*ssa.Global); ok {
+						stores[g] = append(stores[g], st)
+						where[st] = f
+					}
+				}
+			}
+		}
+		for _, a := range f.AnonFuncs {
+			visit(a)
+		}
+	}
+	for _, m := range e.Cfg.Pkg.Members {
+		if f, ok := m.(*ssa.Function); ok {
+			visit(f)
+		}
+		if t, ok := m.(*ssa.Type); ok {
+			for _, ty := range []types.Type{t.Type(), types.NewPointer(t.Type())} {
+				ms := e.Cfg.Prog.MethodSets.MethodSet(ty)
+				for i := 0; i < ms.Len(); i++ {
+					if f := e.Cfg.Prog.MethodValue(ms.At(i)); f != nil && f.Pkg == e.Cfg.Pkg {
+						visit(f)
+					}
+				}
+			}
+		}
+	}
+	for g, sts := range stores {
+		if len(sts) != 1 || where[sts[0]].Name() != "init" || where[sts[0]].Parent() != nil {
+			continue
+		}
+		call, ok := sts[0].Val.(*ssa.Call)
+		if !ok {
+			continue
+		}
+		if cal := call.Common().StaticCallee(); cal != nil {
+			switch cal.String() {
+			case "errors.New", "fmt.Errorf":
+				e.sentinel[g.String()] = true
+			}
+		}
+	}
 }
 
 func (e *Engine) problem(kind, msg string, pos token.Position) {
@@ -985,6 +1042,9 @@ func (e *Engine) load(st *State, addr *Term, site string) *Term {
 	}
 	if v, hit := st.mem[addr]; hit {
 		return v
+	}
+	if addr.K == KGlobal && e.sentinel[addr.S] {
+		return Fresh("sentinel|" + addr.S)
 	}
 	// slice contents are not modelled: the load is symbolic ("content at load time")
 	return Load(addr)
